@@ -159,17 +159,18 @@ structure UploadStream where
 def UploadStream.new (tracked : Bool) (id chunkSize bufCap : Nat) : UploadStream :=
   { tracked, id, chunkSize, bufCap }
 
-/-- The chunk-cutting loop of upload(final): returns the cut chunk payloads and the bytes that stay. -/
+/-- The chunk-cutting loop of upload(final): returns the cut chunk payloads and the bytes that stay.
+    `buf` is s.buffer[i:s.bufLen]; `piece` has size = min(bufLen − i, chunkSize) bytes. -/
 def cut (c : Nat) (final : Bool) : Nat → Bytes → List Bytes × Bytes
   | 0, buf => ([], buf)
   | fuel + 1, buf =>
-    if buf.length = 0 then ([], buf)                 -- i < s.bufLen fails
+    if buf.isEmpty then ([], buf)                            -- i < s.bufLen fails
     else
-      let size := min buf.length c
-      if size < c ∧ final = false then ([], buf)     -- skip partial chunks if not final
+      let piece := buf.take c
+      if piece.length < c ∧ final = false then ([], buf)     -- skip partial chunks if not final
       else
-        let r := cut c final fuel (buf.drop size)
-        (buf.take size :: r.1, r.2)
+        let r := cut c final fuel (buf.drop c)
+        (piece :: r.1, r.2)
 
 /-- BucketChunk documents numbered from `k` -/
 def mkDocs (file : Nat) : Nat → List Bytes → List ChunkDoc
